@@ -5,7 +5,8 @@ open OdlModel OdlModel.Weighting
 
 /-! Driver for C02.  Protocol (one line in, one line out):
 
-* `inner sp=<space> x=<clist> y=<clist>`  → `ok v=<re[:im]>` | `err:notimpl`   (exact, `CRat`/`Rat`)
+* `inner sp=<space> x=<clist> y=<clist>`  → `ok v=<re[:im]> vi=<re[:im]>` | `err:notimpl` (exact, `CRat`/`Rat`;
+  `v` with the real `np.isclose` tolerance, `vi` with the idealised `frac = 1` of the theorems)
 * `norm  sp=<space> x=<clist>`            → `ok v=<rational of the double>`      (`Float`)
 * `dist  sp=<space> x=<clist> y=<clist>`  → `ok v=<rational of the double>`      (`Float`)
 * `info  sp=<space>`  (discretized)       → `ok n=… fl=… fr=… w=…`              (exact)
@@ -41,8 +42,7 @@ def ratAbs (r : Rat) : Rat := if r < 0 then -r else r
 def closeRat (r : Rat) : Bool := ratAbs (r - 1) ≤ (1 : Rat) / 100000000 + (1 : Rat) / 100000
 def closeFloat (r : Float) : Bool := (r - 1).abs ≤ 1e-8 + 1e-5
 
-def exactOps : Ops CRat Rat :=
-  { rK := CRat.ofRat, conj := CRat.conj, re := fun z => z.re, abs := fun z => ratAbs z.re }
+def exactOps : IOps CRat Rat := { rK := CRat.ofRat, conj := CRat.conj }
 
 def floatOps : Ops CF Float :=
   { rK := fun r => ⟨r, 0⟩, conj := fun z => ⟨z.re, -z.im⟩, re := fun z => z.re,
@@ -181,7 +181,11 @@ def doInner (l : Line) : Option String := do
   let x ← getEl sp id l "x"
   let y ← getEl sp id l "y"
   if !sp.hasInner then some "err:notimpl"
-  else some s!"ok v={(Space.inner exactOps closeRat sp x y).str}"
+  else
+    -- `v`: with the code's `np.isclose(frac, 1.0)`; `vi`: with the idealised test `frac = 1`
+    -- under which the theorems of Props/C02.lean are stated (they coincide unless a boundary
+    -- fraction is within the tolerance of 1 without being 1)
+    some s!"ok v={(Space.inner exactOps closeRat sp x y).str} vi={(Space.inner exactOps (fun r => r == 1) sp x y).str}"
 
 def doNorm (l : Line) : Option String := do
   let sp ← getSpace (R := Float) ratToFloat Float.ofNat l
